@@ -73,6 +73,8 @@ var c01Cells = []struct{ name, prog string }{
 	{"dlambda.in-defun", "(defun c01dl# (vx#) ((lambda (vy) vx#) 1)) (vtr (c01dl# 5))"},
 	{"dlambda.in-defun-arg", "(defun c01dl# (vx#) (vtr ((lambda (vy) (vtr vy) vx#) 1))) (c01dl# 5)"},
 	{"dlambda.in-lambda", "(funcall (lambda (vx#) (vtr ((lambda (vy) vx#) 1))) 5)"},
+	{"dlambda.in-do-step", "(do ((vi 0 (+ vi 1)) (va# 7 ((lambda (vp) va#) 5))) ((>= vi 2) (vtr va#)))"},
+	{"dlambda.in-dostar-step", "(do* ((vi 0 (+ vi 1)) (va# 7 ((lambda (vp) va#) 5))) ((>= vi 2) (vtr va#)))"},
 	{"dlambda.call", "((lambda (va vb) (vtr (- va vb))) (vtr 5) (vtr 3))"},
 	// loops
 	{"dolist.var-nil-in-result", "(dolist (vx (quote (1 2)) (vtr vx)) (vtr vx))"},
@@ -178,6 +180,11 @@ func evRun(c *lib.Ctx, sweep []evCase, nComposite int, ctl bool, avoid func(cell
 	var implWall, shrinkWall time.Duration
 	shrunk := 0
 	for i, cs := range cases {
+		if len(c.Violations) >= 40 {
+			// the verdict is settled and only the first 25 get a replay: do not spend minutes on more
+			c.Ev.Coverage["stopped_early_after_violations"] = len(c.Violations)
+			break
+		}
 		model := evParseReply(replies[i])
 		c.Ev.Hist("model_outcome", model.kind)
 		if !evComparable(model) {
@@ -242,7 +249,7 @@ func evRun(c *lib.Ctx, sweep []evCase, nComposite int, ctl bool, avoid func(cell
 			}
 			c.Ev.Count("composite_disagreements", 1)
 			min, mi, mm := cs, impl, model
-			if shrunk < 4 { // shrinking is bounded per run; later disagreements are reported as found
+			if shrunk < 3 { // shrinking is bounded per run; later disagreements are reported as found
 				shrunk++
 				t2 := time.Now()
 				min, mi, mm = evShrink(c, cs, aspect, impl, model, avoid)
